@@ -128,7 +128,10 @@ Definition cadd (c : BM.cfg) (nd : BM.node) (r : repo) (b : BT.blk) : repo :=
 Definition cimport (c : BM.cfg) (nd : BM.node) (r : repo) (b : BT.blk) : repo :=
   if storesb nd b then cadd c nd r b else r.
 
-(* what the rest of the node guarantees about a block it stores (header validation) *)
+(* what the rest of the node guarantees about a block it stores (header validation).
+   SIDE CONDITION: the score clause is enforced by consensus.validateBlockHeader on imported blocks only; own proposals are not
+   validated, and under known finding F14 (PoS score rounds to 0) a packed block has its parent's total score, so the clause
+   - and with it tip_rule for that history - fails there.  It holds for every PoA proposal and every PoS proposal outside F14. *)
 Definition header_ok (nd : BM.node) (b : BT.blk) : Prop :=
   BN.valid_child (BM.n_repo nd) b /\
   (forall p, BT.find_blk (BM.n_repo nd) (BT.b_parent b) = Some p -> BT.b_score p < BT.b_score b) /\
